@@ -85,7 +85,9 @@ var c12HTMLPrologue = []string{
 	"<style>/* <meta charset=fake-in-style> */ body{}</style>", "<title>Title <meta charset=fake-in-title></title>", "<title>plain</title>",
 	"<meta name=\"viewport\" content=\"width=device-width, initial-scale=1\">", "<meta name=\"description\" content=\"about charset=decoy-desc here\">",
 	"<meta content=\"text/html; charset=decoy-no-http-equiv\">", "<meta http-equiv=\"refresh\" content=\"5; url=x\">", "<meta http-equiv=\"X-UA-Compatible\" content=\"IE=edge; charset=decoy-ua\">",
-	"<link rel=\"stylesheet\" href=\"a.css\" charset=\"decoy-link\">", "<meta name=\"charset\" content=\"decoy-name\">", "<meta property=\"og:title\" content=\"t\">", "\n", "  ", "<base href=\"/\">",
+	"<link rel=\"stylesheet\" href=\"a.css\" charset=\"decoy-link\">",
+	"<meta name=\"description\" content=\"A short guide to charset detection\">", "<meta name=\"keywords\" content=\"charset\">", "<meta content=\"charset charset =\">", "<meta name=\"x\" content=\"the charset; charset\">",
+	"<meta http-equiv=\"Content-Language\" content=\"en\">", "<meta http-equiv=\"X-UA-Compatible\" content=\"IE=edge\">", "<meta name=\"viewport\" content=\"width=device-width\"><meta name=\"generator\" content=\"x\">", "<meta name=\"charset\" content=\"decoy-name\">", "<meta property=\"og:title\" content=\"t\">", "\n", "  ", "<base href=\"/\">",
 }
 
 func c12GenHTML(t *rapid.T) c12Case {
